@@ -1,0 +1,31 @@
+//go:build verif
+
+// Contracts for the bmverif deductive checker (comment-only; compiled only under -tags verif).
+// Property C14, discrete part of the software simulation: every input state vector is simulated in a buffer of its
+// own, so the outputs are freshly allocated, pairwise distinct arrays and neither an input nor an output that is
+// already stored is written again (float32 values are opaque; the numeric clauses are not decided).
+
+package bmqsim
+
+//@ props C14
+
+// 2^len(qbits) through math.Pow; only its dependence on the qubit list is used
+//@ func (sim *BmQSimulator) StateSize() int
+//@   pure
+//@   reads sim.qbits
+//@   trusted
+
+//@ func (sim *BmQSimulator) RunSoftwareSimulation() error
+//@   requires sim != nil
+//@   ensures shape: result == nil ==> len(sim.Outputs) == len(sim.Inputs)
+//@   ensures own: result == nil ==> (forall k int :: 0 <= k && k < len(sim.Inputs) ==> fresh(sim.Outputs[k].Vector))
+//@   ensures distinct: result == nil ==> (forall k int, l int :: 0 <= k && k < l && l < len(sim.Inputs) ==> arr(sim.Outputs[k].Vector) != arr(sim.Outputs[l].Vector))
+//@   ensures inputs_kept: len(sim.Inputs) == old(len(sim.Inputs)) && (forall k int :: 0 <= k && k < len(sim.Inputs) ==> sim.Inputs[k] == old(sim.Inputs[k]))
+//@   assigns sim.Outputs
+//@   loop 1: modifies sim.Outputs[*]
+//@   loop 1: invariant shape: len(sim.Outputs) == len(sim.Inputs) && fresh(sim.Outputs)
+//@   loop 1: invariant own: forall k int :: 0 <= k && k < $i ==> fresh(sim.Outputs[k].Vector)
+//@   loop 1: invariant distinct: forall k int, l int :: 0 <= k && k < l && l < $i ==> arr(sim.Outputs[k].Vector) != arr(sim.Outputs[l].Vector)
+//@   loop 2: modifies nothing
+//@   loop 2: invariant cur: fresh(curState)
+//@   loop 2: invariant apart: forall k int :: 0 <= k && k < i ==> arr(curState) != arr(sim.Outputs[k].Vector)
